@@ -95,6 +95,17 @@ CLAIMED = {
         "this check is scheduler-driven exploration of the real code with a TLC-evaluated P-level.",
    technique="deterministic-scheduler exploration of the real pipeline + TLC-evaluated P-level (PipelineObs.tla); Mailbox.tla model checking for the mailbox layer",
    design="4/C06"),
+ "C13": dict(
+   text="Mailbox level: spec/Mailbox.tla is model-checked over all schedules of every configuration for CapInv (eager: never more "
+        "than the capacity buffered) and the action property LazyDemand (lazy: the source is advanced only while a driving "
+        "reader waits for an unproduced message); the model is bound to strax.Mailbox by the lock-step replay of C05, and a TLC "
+        "counterexample is replayed on the real mailbox where the same predicate is evaluated when the source is advanced. "
+        "Pipeline level: real pipelines (4 topologies x lazy/eager x capacities x pause points) run under the deterministic "
+        "scheduler with a consumer that stops pulling; at quiescence source computations for N vs 2N chunks, len(_mailbox) "
+        "after every step and the demand predicate at every source advance are recorded and judged by TLC (BackpressureObs.tla).",
+   note="Pipeline schedules are sampled (seeded); quiescence = no enabled thread under the scheduler; timeouts never fire.",
+   technique="TLA+ model checking (CapInv, LazyDemand action property) with counterexample replay + scheduler-driven pipeline runs judged by TLC",
+   design="4/C13"),
 }
 NOT_BUILT = "decision procedure (TLA+ module + binding) not built yet in this session; see DESIGN.md section 4 for the plan"
 
